@@ -5,6 +5,7 @@ import (
 	"os"
 	"time"
 
+	"verifsim/internal/gensim"
 	"verifsim/internal/sim"
 )
 
@@ -37,5 +38,30 @@ func runGenStat(cfg Config, args []string) int {
 		}
 	}
 	fmt.Printf("accepted %d of %d in %v\n", acc, n, time.Since(t0))
+	return 0
+}
+
+// runGenDump materialises gensim world number VERIF_ONLY of property
+// VERIF_PROP (default C07) under VERIF_DUMPDIR. Development aid.
+func runGenDump(cfg Config, args []string) int {
+	prop := envOr("VERIF_PROP", "C07")
+	var idx int
+	fmt.Sscanf(cfg.Only, "%d", &idx)
+	r := sim.Derive(cfg.Seed, "gensim", prop, idx)
+	kind := "normal"
+	switch {
+	case prop == "C07" && r.Intn(100) < 15:
+		kind = "noerr"
+	case prop == "C10" && r.Intn(100) < 25:
+		kind = "misfit"
+	}
+	w, m := gensim.Gen(r, kind)
+	dir := envOr("VERIF_DUMPDIR", "/tmp/gendump")
+	os.RemoveAll(dir)
+	if err := w.Materialize(dir); err != nil {
+		fmt.Println(err)
+		return 2
+	}
+	fmt.Printf("world %d kind=%s at %s\n", idx, m.Kind, dir)
 	return 0
 }
